@@ -27,6 +27,7 @@ import (
 	"math/big"
 	"os"
 	"strings"
+	"sync"
 	"testing"
 	"testing/synctest"
 	"time"
@@ -36,9 +37,11 @@ import (
 	pb "github.com/libp2p/go-libp2p/core/crypto/pb"
 	"github.com/libp2p/go-libp2p/core/network"
 	"github.com/libp2p/go-libp2p/core/peer"
+	tpt "github.com/libp2p/go-libp2p/core/transport"
 	"github.com/libp2p/go-libp2p/internal/verifh"
 	"github.com/libp2p/go-libp2p/p2p/transport/quicreuse"
 	ma "github.com/multiformats/go-multiaddr"
+	manet "github.com/multiformats/go-multiaddr/net"
 	"github.com/multiformats/go-multibase"
 	"github.com/multiformats/go-multihash"
 	"github.com/quic-go/quic-go"
@@ -1002,6 +1005,249 @@ func c18Dials(t *testing.T, out *verifh.Out, r *verifh.Rand, sg *c18Signers, n i
 		d.run(nil, ser, use, hs)
 		out.Cover("dial.random")
 	}
+	time.Sleep(500 * time.Millisecond) // see c18Node.close
+}
+
+
+// ---- what a LISTENER serves: real handshakes on a timeline ---------------------------
+
+// one real QUIC/TLS handshake against the listener; returns the leaf certificate it presented.
+// The client verifies nothing (the mock clock's dates are not the wall clock's): it only looks.
+func c18Handshake(ln interface{ Multiaddr() ma.Multiaddr }) *x509.Certificate {
+	_, hostport, err := manet.DialArgs(ln.Multiaddr())
+	if err != nil {
+		panic(err)
+	}
+	var lastErr error
+	for attempt := 0; attempt < 3; attempt++ {
+		var leaf []byte
+		conf := &tls.Config{
+			InsecureSkipVerify: true,
+			NextProtos:         []string{http3.NextProtoH3},
+			VerifyPeerCertificate: func(raw [][]byte, _ [][]*x509.Certificate) error {
+				if len(raw) > 0 {
+					leaf = raw[0]
+				}
+				return nil
+			},
+		}
+		ctx, cancel := context.WithTimeout(context.Background(), 5*time.Second)
+		conn, err := quic.DialAddr(ctx, hostport, conf, &quic.Config{})
+		cancel()
+		if err == nil {
+			conn.CloseWithError(0, "")
+		}
+		if leaf != nil {
+			cert, err := x509.ParseCertificate(leaf)
+			if err != nil {
+				panic(err)
+			}
+			return cert
+		}
+		lastErr = err
+	}
+	panic(fmt.Sprintf("c18: no certificate presented by the listener: %v", lastErr))
+}
+
+type c18Node struct {
+	cm *quicreuse.ConnManager
+	tr *transport
+	ln tpt.Listener
+}
+
+func c18StartNode(key ic.PrivKey, cl *clock.Mock) *c18Node {
+	cm, err := quicreuse.NewConnManager(quic.StatelessResetKey{}, quic.TokenGeneratorKey{})
+	if err != nil {
+		panic(err)
+	}
+	trI, err := New(key, nil, cm, nil, &network.NullResourceManager{}, WithClock(cl))
+	if err != nil {
+		panic(err)
+	}
+	ln, err := trI.(*transport).Listen(ma.StringCast("/ip4/127.0.0.1/udp/0/quic-v1/webtransport"))
+	if err != nil {
+		panic(err)
+	}
+	go func() {
+		for {
+			c, err := ln.Accept()
+			if err != nil {
+				return
+			}
+			c.Close()
+		}
+	}()
+	return &c18Node{cm, trI.(*transport), ln}
+}
+
+var c18Closing sync.WaitGroup
+
+// Closing a listener while the connection of a just finished handshake is still being handed to
+// webtransport-go's Server.ServeQUICConn panics there ("assignment to entry in nil map": a race between
+// listener.Close and the accept loop, not part of C18).  Nodes are therefore closed a little later.
+func (n *c18Node) close() {
+	c18Closing.Add(1)
+	go func() {
+		defer c18Closing.Done()
+		time.Sleep(1500 * time.Millisecond)
+		n.ln.Close()
+		n.tr.Close()
+		n.cm.Close()
+	}()
+}
+
+// SNAP of a node: last/current/next from its certManager, SERVED = the leaf presented in a real
+// handshake, the early-data list, and the certhashes of the LISTENER's multiaddr
+func c18NodeSnap(ids *c18Ids, cl *clock.Mock, n *c18Node) ([]int64, int64) {
+	m := n.tr.certManager
+	line := []int64{cl.Now().UnixNano()}
+	m.mx.RLock()
+	last, cur, next := m.lastConfig, m.currentConfig, m.nextConfig
+	m.mx.RUnlock()
+	line = append(line, c18Cfg(ids, last)...)
+	line = append(line, c18Cfg(ids, cur)[1:]...)
+	line = append(line, c18Cfg(ids, next)...)
+	leaf := c18Handshake(n.ln)
+	h := sha256.Sum256(leaf.Raw)
+	srv := ids.id(h[:])
+	line = append(line, leaf.NotBefore.UnixNano(), leaf.NotAfter.UnixNano(), srv)
+	var ser []multihash.DecodedMultihash
+	for _, b := range m.SerializedCertHashes() {
+		dh, err := multihash.Decode(b)
+		if err != nil {
+			ser = append(ser, multihash.DecodedMultihash{Code: 0, Digest: b})
+			continue
+		}
+		ser = append(ser, *dh)
+	}
+	line = append(line, c18Pairs(ids, ser)...)
+	addr, err := extractCertHashes(n.ln.Multiaddr())
+	if err != nil {
+		addr = nil
+	}
+	line = append(line, c18Pairs(ids, addr)...)
+	return line, srv
+}
+
+// move the mock clock by d without racing the manager's goroutine: stop at the instant its timer
+// is due (as far as the harness can tell from the manager's state), wait until the rollover has been
+// processed, then go on.  Only the stepping looks at the manager; the verdict never does.
+func c18StepNode(cl *clock.Mock, n *c18Node, d time.Duration) {
+	target := cl.Now().Add(d)
+	m := n.tr.certManager
+	for i := 0; i < 4; i++ {
+		m.mx.RLock()
+		before := m.currentConfig
+		fireAt := before.End().Add(-clockSkewAllowance)
+		m.mx.RUnlock()
+		if fireAt.After(target) || fireAt.Before(cl.Now()) {
+			break
+		}
+		cl.Set(fireAt)
+		for j := 0; j < 2000; j++ {
+			m.mx.RLock()
+			changed := m.currentConfig != before
+			m.mx.RUnlock()
+			if changed {
+				break
+			}
+			time.Sleep(time.Millisecond)
+		}
+	}
+	cl.Set(target)
+	time.Sleep(2 * time.Millisecond)
+}
+
+// a timeline of a real listener that stays open across rollovers (kind 1: same format, same model,
+// same monitor as the certManager timelines; the served certificate is what a handshake shows)
+func c18ListenerTimeline(out *verifh.Out, r *verifh.Rand, maxOps int) {
+	ids := newC18Ids()
+	key, _, err := ic.GenerateEd25519Key(c18RandReader{r})
+	if err != nil {
+		panic(err)
+	}
+	raw, _ := key.GetPublic().Raw()
+	b0, b1 := raw[0], raw[1]
+	off := c18Offset(b0, b1)
+	period := certValidity - 2*clockSkewAllowance
+	deltas := []time.Duration{0, 1, -1, time.Millisecond, -time.Millisecond, time.Second,
+		time.Duration(r.Uint64() % uint64(period)), time.Duration(r.Uint64() % uint64(period))}
+	k := int64(1 + r.Intn(3000))
+	t0 := int64(off) + k*int64(period) + int64(clockSkewAllowance) + int64(deltas[r.Intn(len(deltas))])
+	for t0 > c18MaxT-20*int64(certValidity) {
+		t0 -= 1000 * int64(period)
+	}
+	cl := clock.NewMock()
+	cl.Set(time.Unix(0, t0))
+	n := c18StartNode(key, cl)
+	line := []int64{5, int64(b0), int64(b1), t0, 0}
+	sn, srv := c18NodeSnap(ids, cl, n)
+	line = append(line, sn...)
+	rolls := 0
+	nops := 2 + r.Intn(maxOps)
+	for i := 0; i < nops; i++ {
+		c := r.Intn(100)
+		switch {
+		case c < 85:
+			m := n.tr.certManager
+			m.mx.RLock()
+			toFire := m.currentConfig.End().Add(-clockSkewAllowance).Sub(cl.Now())
+			m.mx.RUnlock()
+			var d time.Duration
+			switch r.Intn(8) {
+			case 0, 1:
+				d = toFire
+				out.Cover("listener.adv.exactly_timer_instant")
+			case 2:
+				d = toFire - 1
+			case 3:
+				d = toFire + deltas[r.Intn(6)]
+			case 4, 5:
+				d = period
+			default:
+				d = time.Duration(r.Uint64() % uint64(period+1))
+			}
+			if d < 0 {
+				d = 0
+			}
+			if d > period {
+				d = period
+			}
+			if cl.Now().UnixNano()+int64(d) > c18MaxT {
+				d = 0
+			}
+			c18StepNode(cl, n, d)
+			sn, s2 := c18NodeSnap(ids, cl, n)
+			if s2 != srv {
+				rolls++
+				out.Cover("listener.rollover_seen_in_handshake")
+			}
+			srv = s2
+			line = append(line, 1, int64(d))
+			line = append(line, sn...)
+			out.Cover(fmt.Sprintf("listener.handshake_after_%d_rollovers_of_an_open_listener", min(rolls, 4)))
+		case c < 93:
+			// a second node with the same key, started now (observed through a handshake, closed)
+			n2 := c18StartNode(key, cl)
+			sn, _ := c18NodeSnap(ids, cl, n2)
+			n2.close()
+			line = append(line, 3)
+			line = append(line, sn...)
+			out.Cover("listener.second_node")
+		default:
+			n.close()
+			n = c18StartNode(key, cl)
+			rolls = 0
+			sn, s2 := c18NodeSnap(ids, cl, n)
+			srv = s2
+			line = append(line, 2)
+			line = append(line, sn...)
+			out.Cover("listener.restart")
+		}
+	}
+	n.close()
+	out.Cover("listener.timelines")
+	out.Case(line)
 }
 
 // ---- entry points ------------------------------------------------------------------
@@ -1083,6 +1329,15 @@ func TestVerifC18(t *testing.T) {
 	})
 
 	c18Dials(t, out, r.Fork(), sg, nDial)
+
+	nListener := 60
+	if thorough {
+		nListener = 1200
+	}
+	for i := 0; i < nListener; i++ {
+		c18ListenerTimeline(out, r.Fork(), 7)
+	}
+	c18Closing.Wait()
 }
 
 // re-execute a recorded timeline (kinds 1 and 4) on the implementation now in
@@ -1097,6 +1352,10 @@ func TestVerifC18Replay(t *testing.T) {
 	c := verifh.ReplayCase()
 	if len(c) >= 3 && c[0] == 2 {
 		c18ReplayVerify(t, out, c)
+		return
+	}
+	if len(c) >= 5 && c[0] == 5 {
+		c18ReplayListener(out, c)
 		return
 	}
 	if len(c) < 5 || (c[0] != 1 && c[0] != 4) {
@@ -1245,6 +1504,65 @@ func c18ReplayVerify(t *testing.T, out *verifh.Out, c []int64) {
 		line = append(line, res)
 		out.Case(line)
 	})
+}
+
+// re-execute a recorded listener timeline (kind 5) with a key that has the same two leading public-key bytes
+func c18ReplayListener(out *verifh.Out, c []int64) {
+	var key ic.PrivKey
+	for {
+		k, _, err := ic.GenerateEd25519Key(rand.Reader)
+		if err != nil {
+			panic(err)
+		}
+		raw, _ := k.GetPublic().Raw()
+		if int64(raw[0]) == c[1] && int64(raw[1]) == c[2] {
+			key = k
+			break
+		}
+	}
+	ids := newC18Ids()
+	cl := clock.NewMock()
+	cl.Set(time.Unix(0, c[3]))
+	n := c18StartNode(key, cl)
+	line := []int64{5, c[1], c[2], c[3], 0}
+	sn, _ := c18NodeSnap(ids, cl, n)
+	line = append(line, sn...)
+	skipSnap := func(i int) int {
+		i += 15
+		i += 1 + 2*int(c[i])
+		i += 1 + 2*int(c[i])
+		return i
+	}
+	i := skipSnap(5)
+	for i < len(c) {
+		switch c[i] {
+		case 1:
+			c18StepNode(cl, n, time.Duration(c[i+1]))
+			sn, _ := c18NodeSnap(ids, cl, n)
+			line = append(line, 1, c[i+1])
+			line = append(line, sn...)
+			i = skipSnap(i + 2)
+		case 2:
+			n.close()
+			n = c18StartNode(key, cl)
+			sn, _ := c18NodeSnap(ids, cl, n)
+			line = append(line, 2)
+			line = append(line, sn...)
+			i = skipSnap(i + 1)
+		case 3:
+			n2 := c18StartNode(key, cl)
+			sn, _ := c18NodeSnap(ids, cl, n2)
+			n2.close()
+			line = append(line, 3)
+			line = append(line, sn...)
+			i = skipSnap(i + 1)
+		default:
+			panic(fmt.Sprintf("bad op %d at %d", c[i], i))
+		}
+	}
+	n.close()
+	c18Closing.Wait()
+	out.Case(line)
 }
 
 var _ = io.EOF
